@@ -1,6 +1,6 @@
 (* C06 property theorems ONLY (each closed by an already proved lemma) + assumptions. *)
 From Coq Require Import Reals List NArith Bool Arith Lia.
-From RV Require Import C05.Types Gen.Descriptors C06.Model C06.Run C06.Diff C06.Index C06.Cadence C06.CadenceR C06.Members C06.Time.
+From RV Require Import Common.Num Common.RealNum C05.Types Gen.Descriptors C06.Model C06.Run C06.Diff C06.Index C06.Cadence C06.CadenceR C06.CadenceNum C06.Members C06.Time C07.Prefix C06.Writer.
 Import ListNotations.
 Open Scope N_scope.
 
@@ -64,6 +64,22 @@ Theorem C06_index_time_is_live_time : forall c peq s0 s tb0 tb,
 Proof. exact index_time_live. Qed.
 Print Assumptions C06_index_time_is_live_time.
 
+(* the model writer produces the chain layout: save_append (= reb_simulation_save_to_file on an existing file: walk
+   over blob 0, corruption test, in-place trailer patch, diff, END, trailer) applied to an intact archive appends one
+   blob; hence every file produced from a first snapshot by any number of appends is an `archive` and
+   C06_index_of_appends applies to it *)
+Theorem C06_writer_produces_chain : forall c, wf_cfg c -> forall peq h fs0 h' ss ds,
+  wf_header c h -> wf_d c fs0 -> length h' = 64%nat -> Forall (small_d c) ds ->
+  Forall (fun s' => wf_d c s' /\ small_d c (binary_diff peq fs0 s')) ss ->
+  N.of_nat (length ds + length ss) < 2^32 ->
+  fold_left (fun file s' => save_append peq c file (stream_of c h' s')) ss (archive c h fs0 ds)
+  = archive c h fs0 (ds ++ map (binary_diff peq fs0) ss).
+Proof. exact writer_layout. Qed.
+Print Assumptions C06_writer_produces_chain.
+
+Theorem C06_first_file_is_archive : forall c h fs0, first_file c h fs0 = archive c h fs0 [].
+Proof. exact first_file_archive. Qed.
+
 (* automatic snapshots by step count: exactly at steps_done = s0 + j*auto *)
 Theorem C06_cadence_step : forall auto s0 n x, 0 < auto ->
   In x (hb_run auto s0 s0 n) <-> (s0 <= x < s0 + N.of_nat n /\ (x - s0) mod auto = 0).
@@ -84,6 +100,23 @@ Theorem C06_cadence_interval_first_boundary : forall (I : R) ts p next, (0 < I)%
   (T <= s)%R /\ (forall u, In u ts -> (u < s)%R -> (u < T)%R) /\ (p < T)%R.
 Proof. exact interval_first. Qed.
 Print Assumptions C06_cadence_interval_first_boundary.
+
+(* the heartbeat threshold logic is ONE Num-polymorphic term (CadenceNum.run_thr): its binary64 instance is compared
+   bit for bit with the library (snapshot times and the accumulated simulationarchive_next, incl. absorbed tiny
+   intervals); its real instance is runI, for dt > 0 and (negated) for dt < 0, so the two cadence theorems above are
+   statements about that term *)
+Theorem C06_cadence_term_forward : forall (I : R) ts next, fst (run_thr RNum 1%R I next ts) = runI I next ts.
+Proof. exact run_thr_R_forward. Qed.
+Theorem C06_cadence_term_backward : forall (I : R) ts next,
+  map (fun p => (- fst p, - snd p)%R) (fst (run_thr RNum (-1)%R I next ts)) = runI I (- next)%R (map Ropp ts).
+Proof. exact run_thr_R_backward. Qed.
+Print Assumptions C06_cadence_term_backward.
+
+(* walltime cadence: same term with sign 1 over r->walltime; after a restart the attach function sets
+   next = walltime unconditionally, so the first heartbeat writes a snapshot at once (documented duplicate) *)
+Theorem C06_walltime_restart_snapshots_immediately : forall (W wall : R) r,
+  exists out fin, run_thr RNum 1%R W wall (wall :: r) = ((wall, wall) :: out, fin).
+Proof. exact walltime_restart_snapshots_immediately. Qed.
 
 (* Non-vacuity: a two-delta archive with a vanished field and a t field satisfies every hypothesis. *)
 Example C06_hypotheses_inhabited :
